@@ -157,7 +157,20 @@ func (verifOS) Rename(oldpath, newpath string) error {
 	if err := verifPoint("rename", newpath); err != nil {
 		return err
 	}
+	verifDurable("rename", oldpath+" "+newpath)
 	return os.Rename(oldpath, newpath)
+}
+
+// verifDurable keeps the record a simulated power cut needs (VERIF_DURLOG):
+// which files were made durable (sync) before they got their final name
+// (rename).  It is not a numbered operation.
+func verifDurable(what, arg string) {
+	if log := os.Getenv("VERIF_DURLOG"); log != "" {
+		if f, err := os.OpenFile(log, os.O_APPEND|os.O_CREATE|os.O_WRONLY, 0o644); err == nil {
+			fmt.Fprintf(f, "%s %s\n", what, arg)
+			f.Close()
+		}
+	}
 }
 
 func (verifOS) ReadFile(name string) ([]byte, error) {
@@ -261,6 +274,14 @@ func (v *verifFile) Write(p []byte) (int, error) {
 }
 
 func (v *verifFile) WriteString(s string) (int, error) { return v.Write([]byte(s)) }
+
+func (v *verifFile) Sync() error {
+	if err := verifPoint("sync", v.f.Name()); err != nil {
+		return err
+	}
+	verifDurable("sync", v.f.Name())
+	return v.f.Sync()
+}
 
 func (v *verifFile) Close() error {
 	if err := verifPoint("close", v.f.Name()); err != nil {
